@@ -94,7 +94,19 @@ func ToCode(i int) Code { return Code(i) }
 
 func init() {}
 `,
-		"sibling/doc.go": "package sibling\n",
+		// unmarked interfaces in other files of the package; the rejected version bad:multi embeds them
+		pkgDir + "/audit.go":   "package " + pkg + "\n\n// AuditConverter is embedded by a converter interface.\ntype AuditConverter interface {\n\t// Stamp has no source.\n\tStamp() *PetDTO\n}\n",
+		pkgDir + "/billing.go": "package " + pkg + "\n\n// BillingConverter is embedded by a converter interface.\ntype BillingConverter interface {\n\tOwnerToDTO(*Owner) *OwnerDTO\n\t// Settle has no destination.\n\tSettle(*Owner)\n}\n",
+		"sibling/doc.go":       "package sibling\n",
+		// a package of the module that goes by the name of a standard library package
+		"app/time/time.go": `package time
+
+type T struct{}
+
+func Now() T { return T{} }
+
+func (T) Unix() int64 { return 7 }
+`,
 		// two packages whose import paths end in the same element (both imported blank by one input)
 		"app/audit/hooks/hooks.go": `package hooks
 
@@ -263,6 +275,33 @@ type Convergen interface {
 	Pets(*Pet) *PetDTO
 }
 `))
+	// a pair for the import resolution of the final pass: the first version imports the module's own
+	// package time, the second leaves `time` to goimports (which settles on the standard library) -
+	// nothing of the first version's output may decide that
+	ins = append(ins, mk("impold", "conv", `//go:build convergen
+
+package conv
+
+import "fsw/app/time"
+
+type Convergen interface {
+	// :typecast
+	// :skip Label
+	// :literal Age int(time.Now().Unix())
+	PetToDTO(*Pet) *PetDTO
+}
+`))
+	ins = append(ins, mk("impnew", "conv", `//go:build convergen
+
+package conv
+
+type Convergen interface {
+	// :typecast
+	// :skip Label
+	// :literal Age int(time.Now().Unix())
+	PetToDTO(*Pet) *PetDTO
+}
+`))
 	// the same as "simple" under a long package name (truncation points inside the package identifier)
 	long := mk("longname", "longpkgname", strings.Replace(ins[0].Setup, "package conv", "package longpkgname", 1))
 	ins = append(ins, long)
@@ -293,6 +332,10 @@ func rejectedInput(kind string) Input {
 	case "bad:format":
 		// fails only in the final import/format pass: the receiver name is a Go keyword
 		base.Setup = head + "type Convergen interface {\n\t// :recv type\n\tM(*Pet) *PetDTO\n}\n"
+	case "bad:multi":
+		// several methods are refused, one of them declared in another file of the package (embedded
+		// interface): every one is reported, in an order that must not depend on the process
+		base.Setup = head + "type Convergen interface {\n\tAuditConverter\n\tBillingConverter\n\tM(*Pet) *PetDTO\n\t// Touch has no destination.\n\tTouch(*Pet)\n}\n"
 	case "bad:missing":
 		base.Setup = ""
 	default:
